@@ -327,6 +327,50 @@ func (x *runner) contentFor(rng *rand.Rand, c *kase, fill int, vec *vector) []by
 		}
 		offClass(valid, p, []string{"m1", "p1", "beyond", "zero"}[rng.Intn(4)], -1)
 		return valid
+	case "offdecr":
+		// offsets of the fixed part: positions p, p+4, ... below the first offset's value; of the first inner list: from there
+		p := firstOffsetPos(c.Net)
+		if len(valid) < p+8 {
+			return valid
+		}
+		first := int(binary.LittleEndian.Uint32(valid[p:]))
+		tab, end := p, first // the table to damage: [tab, end)
+		if (first-p)/4 < 2 || fill%5 == 4 {
+			// the first variable field is itself a list of variable-size items: its own offset table starts at `first`
+			if first+8 <= len(valid) {
+				if in := int(binary.LittleEndian.Uint32(valid[first:])); in >= 8 && first+in <= len(valid) {
+					tab, end = first, first+in
+				}
+			}
+		}
+		if end > len(valid) || (end-tab)/4 < 2 {
+			return valid
+		}
+		nlater := (end-tab)/4 - 1
+		if nlater > 4 {
+			nlater = 4
+		}
+		q := tab + 4*(1+(fill/2)%nlater) // a later offset, in turn
+		prev := binary.LittleEndian.Uint32(valid[q-4:])
+		switch (fill / 2 / nlater) % 3 {
+		case 0: // just below its predecessor
+			if prev > 0 {
+				binary.LittleEndian.PutUint32(valid[q:], prev-uint32(1+rng.Intn(int(min(prev, 8)))))
+			}
+		case 1: // swapped with its predecessor
+			cur := binary.LittleEndian.Uint32(valid[q:])
+			binary.LittleEndian.PutUint32(valid[q-4:], cur)
+			binary.LittleEndian.PutUint32(valid[q:], prev)
+		default: // back to the start of the table
+			binary.LittleEndian.PutUint32(valid[q:], uint32(end-tab))
+			if tab == p {
+				binary.LittleEndian.PutUint32(valid[q:], uint32(first))
+			}
+			if prev > uint32(first) && tab == p {
+				binary.LittleEndian.PutUint32(valid[q:], uint32(first)+uint32(rng.Intn(int(prev)-first)))
+			}
+		}
+		return valid
 	case "flip":
 		for k := 0; k < 1+rng.Intn(3) && len(valid) > 0; k++ {
 			valid[rng.Intn(len(valid))] ^= byte(1 << uint(rng.Intn(8)))
@@ -482,6 +526,51 @@ func (x *runner) fieldCase(rng *rand.Rand, c *kase, key, content []byte) ([]byte
 		return key, content
 	}
 	return key, content
+}
+
+// pathCut: state network keys 32 / 33 carry the trie path as packed nibbles at their end; the genuine item is kept and the
+// path cut to a shorter length (every length is drawn over the concretisations), so that it ends inside whatever node of
+// the proof covers that depth (sweep mutant 05-C01: an off-by-one guard in the extension-node case of TraverseTrieNode)
+func pathCut(rng *rand.Rand, c *kase, key []byte) []byte {
+	fixed := 0
+	switch c.Ksel {
+	case 32:
+		fixed = 36
+	case 33:
+		fixed = 68
+	default:
+		return key
+	}
+	if len(key) < 1+fixed+1 {
+		return key
+	}
+	packed := key[1+fixed:]
+	var nibbles []byte
+	switch packed[0] >> 4 {
+	case 0:
+	case 1:
+		nibbles = append(nibbles, packed[0]&0x0f)
+	default:
+		return key
+	}
+	for _, b := range packed[1:] {
+		nibbles = append(nibbles, b>>4, b&0x0f)
+	}
+	if len(nibbles) == 0 {
+		return key
+	}
+	nibbles = nibbles[:rng.Intn(len(nibbles))]
+	var out []byte
+	if len(nibbles)%2 == 1 {
+		out = append(out, 0x10|nibbles[0])
+		nibbles = nibbles[1:]
+	} else {
+		out = append(out, 0x00)
+	}
+	for i := 0; i+1 < len(nibbles); i += 2 {
+		out = append(out, nibbles[i]<<4|nibbles[i+1])
+	}
+	return cat(key[:1+fixed], out)
 }
 
 // ---- ENRs ---------------------------------------------------------------------------------------------------
